@@ -46,7 +46,7 @@ OPS = ["add_row", "read", "print", "read_copy", "read_twice"]
 
 
 def BOUNDS(tier):
-    return {"sizes": list(range(2, 8)) if tier == "quick" else list(range(2, 13)) + [17, 18],
+    return {"sizes": list(range(2, 8)) + [10, 11, 18] if tier == "quick" else list(range(2, 13)) + [17, 18, 20, 22, 34, 40],
             "atmospheres(pixel_scale,r0,L0)": ATMOS[:2 if tier == "quick" else 4],
             "seeds": [1, 2] if tier == "quick" else [1, 2, 3], "ops": OPS, "depth": 5 if tier == "quick" else 10,
             "vk_n_columns": [2] if tier == "quick" else [1, 2, 3],
